@@ -148,6 +148,7 @@ type scenario struct {
 	sscript        []bool     // scripted outcomes of the next Persistence operations
 	silentAfter    bool       // after the last injected chunk the broker goes silent (no EOF)
 	inject         [][]byte   // broker packets to deliver next, before anything else
+	connacks       [][]byte   // scripted answers to the next CONNECTs, before any random choice
 }
 
 type seqOpts struct {
@@ -249,6 +250,15 @@ func (sc *scenario) react(c *simConn, all []byte) {
 			sp := byte(0)
 			if sc.sessionPresent && body[7]&2 == 0 {
 				sp = 1
+			}
+			if len(sc.connacks) != 0 {
+				p := sc.connacks[0]
+				sc.connacks = sc.connacks[1:]
+				if len(p) == 4 && p[3] == 0 {
+					sc.sessionPresent = true
+				}
+				b.queue = append(b.queue, readAns{kind: rData, data: p})
+				continue
 			}
 			switch k := sc.r.intn(1000); {
 			case k < sc.opts.faultRate:
@@ -1100,7 +1110,7 @@ func (h *hist) goodSuffix() {
 	sc.opts.hostile = false
 	sc.dropComp = false
 	sc.budgetIn = 0
-	sc.inject, sc.wscript = nil, nil
+	sc.inject, sc.wscript, sc.connacks = nil, nil, nil
 	h.store.onOp = nil
 	h.stats["good-suffix"]++
 	h.record("OpQuit 1000000", "RetErr 0")
